@@ -270,7 +270,23 @@ fn run_bw<V: Val>(c: &Case, out: &mut String) {
             e => panic!("unknown entry {e}"),
         }
     };
-    let pma = match catch_unwind(AssertUnwindSafe(build)) {
+    let first = catch_unwind(AssertUnwindSafe(build));
+    // the static constructors are documented as the builder with default options: a builder obtained
+    // from Default::default() must give the same outcome (same bytes / same error kind)
+    if c.entry == "new" || c.entry == "with_values" {
+        let alt = catch_unwind(AssertUnwindSafe(|| -> Result<DoubleArrayAhoCorasick<V>, DaachorseError> {
+            if c.entry == "new" { DoubleArrayAhoCorasickBuilder::default().build(c.pats.iter().map(|(p, _)| p.as_slice())) }
+            else { DoubleArrayAhoCorasickBuilder::default().build_with_values(c.pats.iter().map(|(p, v)| (p.as_slice(), V::parse(v)))) }
+        }));
+        let d = |r: &std::thread::Result<Result<DoubleArrayAhoCorasick<V>, DaachorseError>>| match r {
+            Err(_) => "panic".to_string(),
+            Ok(Err(e)) => format!("err:{}", err_name(e)),
+            Ok(Ok(p)) => { let mut h = FNV0; fnv(&mut h, &p.serialize()); format!("ok:{:016x}", h) }
+        };
+        let (a, b) = (d(&first), d(&alt));
+        if a == b { writeln!(out, "DEFAULTB 1").unwrap(); } else { writeln!(out, "DEFAULTB 0 {b}").unwrap(); }
+    }
+    let pma = match first {
         Err(_) => { writeln!(out, "BUILD panic").unwrap(); return; }
         Ok(Err(e)) => { writeln!(out, "BUILD err:{}", err_name(&e)).unwrap(); return; }
         Ok(Ok(p)) => p,
@@ -465,7 +481,21 @@ fn run_cw<V: Val>(c: &Case, out: &mut String) {
             e => panic!("unknown entry {e}"),
         }
     };
-    let pma = match catch_unwind(AssertUnwindSafe(build)) {
+    let first = catch_unwind(AssertUnwindSafe(build));
+    if c.entry == "new" || c.entry == "with_values" {
+        let alt = catch_unwind(AssertUnwindSafe(|| -> Result<CharwiseDoubleArrayAhoCorasick<V>, DaachorseError> {
+            if c.entry == "new" { CharwiseDoubleArrayAhoCorasickBuilder::default().build(pats.iter()) }
+            else { CharwiseDoubleArrayAhoCorasickBuilder::default().build_with_values(pats.iter().zip(c.pats.iter()).map(|(p, (_, v))| (p, V::parse(v)))) }
+        }));
+        let d = |r: &std::thread::Result<Result<CharwiseDoubleArrayAhoCorasick<V>, DaachorseError>>| match r {
+            Err(_) => "panic".to_string(),
+            Ok(Err(e)) => format!("err:{}", err_name(e)),
+            Ok(Ok(p)) => { let mut h = FNV0; fnv(&mut h, &p.serialize()); format!("ok:{:016x}", h) }
+        };
+        let (a, b) = (d(&first), d(&alt));
+        if a == b { writeln!(out, "DEFAULTB 1").unwrap(); } else { writeln!(out, "DEFAULTB 0 {b}").unwrap(); }
+    }
+    let pma = match first {
         Err(_) => { writeln!(out, "BUILD panic").unwrap(); return; }
         Ok(Err(e)) => { writeln!(out, "BUILD err:{}", err_name(&e)).unwrap(); return; }
         Ok(Ok(p)) => p,
